@@ -49,18 +49,22 @@ def run(ctx):
         order = list(alg.canon2bin.values())
         blocks = [b for b in P.grade_blocks(d, order) if len(b) <= (8 if d <= 3 else 6)]
         cases = []
+        n = (3 if d <= 3 else 1) if q else (8 if d <= 3 else 3)
+        small = [b for b in blocks if len(b) <= 4]
+        # the SAME patterns for all operators of one arity: sibling operators (hodge/unhodge, lc/rc, ...)
+        # meet on the same key patterns, and the revisit pass calls earlier ones again
+        shared = {1: [[rng.choice(blocks)] for _ in range(n)], 2: [[rng.choice(blocks), rng.choice(blocks)] for _ in range(n)]}
+        shared_small = {1: [[rng.choice(small)] for _ in range(n)], 2: [[rng.choice(small), rng.choice(small)] for _ in range(n)]}
         for op in OPS:
             ar = arity(op)
-            n = (3 if d <= 3 else 1) if q else (8 if d <= 3 else 3)
-            for _ in range(n):
-                keys = [rng.choice(blocks) for _ in range(ar)]
-                if op in ('inv', 'div', 'sw', 'proj') and d >= 3:
-                    keys = [rng.choice([b for b in blocks if len(b) <= 4]) for _ in range(ar)]
+            for i in range(n):
+                keys = (shared_small if op in ('inv', 'div', 'sw', 'proj') and d >= 3 else shared)[ar][i]
                 params = [] if op not in ('grade', 'pow') else ([rng.randint(0, d)] if op == 'grade' else [rng.choice([2, 3])])
                 cases.append((op, keys, params))
+        rng.shuffle(cases)
         for v in vectors:
             opts = {k: x for k, x in v.items() if x not in (None,)}
-            groups.append({'u': u, 'opts': opts, 'cases': cases, 'revisit': 0.1})
+            groups.append({'u': u, 'opts': opts, 'cases': cases, 'revisit': 0.5})
     run_plan(ctx, groups, budget=90, fingerprint=fingerprint, shards_per_group=1)
     ctx.extra['option_vectors'] = len(vectors)
     return ctx.finish(
